@@ -126,8 +126,14 @@ impl Monitor {
                         continue;
                     }
                     let live: Vec<usize> = (0..stats.len()).filter(|&i| !stats[i].dropped.load(Ordering::SeqCst)).collect();
+                    // A live block that made no call at all while another one made 40+
+                    // (each followed by a 100 ms wait) is not running any more (its
+                    // thread has ended or is blocked for good): it cannot contribute.
+                    let delta = |i: usize| stats[i].calls.load(Ordering::SeqCst).saturating_sub(snap[i]);
+                    let busiest = live.iter().map(|&i| delta(i)).max().unwrap_or(0);
                     if !live.is_empty()
-                        && live.iter().all(|&i| stats[i].calls.load(Ordering::SeqCst) >= snap[i] + min_calls)
+                        && busiest >= min_calls
+                        && live.iter().all(|&i| delta(i) >= min_calls || (delta(i) == 0 && busiest >= min_calls.saturating_mul(10).max(40)))
                         && rec::data_events() == last
                     {
                         st2.store(true, Ordering::SeqCst);
